@@ -510,6 +510,8 @@ Proof.
   induction f; intros T r T' W H.
   - (* FVar *) simpl in H. injection H as <- <-. split; [now apply sspecI_refl|].
     split; auto. intros rho _ i. unfold eval. simpl. tauto.
+  - (* FAtom *) simpl in H. injection H as <- <-. split; [now apply sspecI_refl|].
+    split; auto. intros rho _ i. unfold eval. simpl. tauto.
   - (* FConst *) simpl in H. injection H as <- <-. split; [now apply sspecI_refl|].
     split; auto. intros rho _ i. unfold eval. simpl. tauto.
   - (* FNot *) simpl in H. destruct (tr true true f T) as [a T1] eqn:E1.
@@ -690,6 +692,7 @@ Lemma holds_ext : forall g r1 r2,
 Proof.
   induction g; simpl vars; intros r1 r2 H i; simpl.
   - rewrite (H i v); simpl; tauto.
+  - rewrite (H i a); simpl; tauto.
   - tauto.
   - rewrite (IHg r1 r2 H i). tauto.
   - apply bopP_iff; [apply IHg1|apply IHg2]; intros; apply H; apply in_or_app; auto.
